@@ -530,6 +530,12 @@ theorem model_step_has_table_effect (F : Fns α) (st : State α) (op : Op α) :
   ⟨(step_sameOutside F st op).1.symm, (step_sameOutside F st op).2,
    fun f hf => step_fillOnly F st op f hf, fun hok f hf => step_clears F st op f hf hok⟩
 
+/-- … and the table is not an over-approximation: on concrete two-user objects of either class
+    (kernel-evaluated, integers) every field the table lists for an operation is really changed
+    by that operation. -/
+theorem model_effect_table_is_tight : tight false = true ∧ tight true = true := by
+  decide
+
 /-- The dependency table `specDeps` IS what the coherence invariant encodes: `Coherent` is the
     conjunction of one clause per derived field, and the clause of a derived field reads that
     field and the fields `specDeps` lists for it, nothing else. -/
